@@ -1287,6 +1287,14 @@ class FnTr:
                     pv, cv, pr = (a, b, pred) if smallc(b) else (b, a, flip[pred])
                     emit('%s = (u8)VP_PTR_%s_C(%s, %dull);' % (d, pr.upper(), E.val(pv), cv.ops[0].val))
                     return
+            if PTRTAG and isinstance(E.resolve(t), TPtr) and pred in ('eq', 'ne', 'ugt', 'uge', 'ult', 'ule'):
+                # --ptrtag: pointer comparison where either side may be a run-time small-integer tag ((T*)1 loaded from memory), NULL or
+                # an aligned object address: VP_PTRT_* (PRELUDE) classify both operands with tests symex can fold
+                A_, B_ = E.val(a), E.val(b)
+                ex = {'eq': 'VP_PTRT_EQ(%s, %s)' % (A_, B_), 'ne': '!VP_PTRT_EQ(%s, %s)' % (A_, B_), 'ugt': 'VP_PTRT_UGT(%s, %s)' % (A_, B_),
+                      'ult': 'VP_PTRT_UGT(%s, %s)' % (B_, A_), 'uge': '!VP_PTRT_UGT(%s, %s)' % (B_, A_), 'ule': '!VP_PTRT_UGT(%s, %s)' % (A_, B_)}[pred]
+                emit('%s = (u8)(%s);' % (d, ex))
+                return
             emit('%s = %s;' % (d, E.icmp(pred, t, E.val(a), E.val(b))))
             return
         if op == 'fcmp':
@@ -1625,6 +1633,16 @@ static inline u64 vp_sb_load(struct vp_sb* b, void* a, u8 sz){ for(unsigned i=SB
 #define VP_PTR_ULE_C(p,c) ((u64)(p) <= (u64)(c))
 #define VP_PTR_EQ_C(p,c) ((u64)(p) == (u64)(c))
 #endif
+#ifdef __CPROVER__
+/* --ptrtag: operands are NULL, a small-integer tag with an unaligned value ((T*)1), or an 8-aligned address inside an object.
+   kind 0 = NULL, 1 = tag, 2 = object address; every test below is folded by cbmc's symex for concrete operands */
+#define VP_PK(p) ((__CPROVER_POINTER_OFFSET(p) & 7) ? 1 : (__CPROVER_same_object((p), (void*)0) ? 0 : 2))
+#define VP_PTRT_EQ(a,b) (__CPROVER_POINTER_OFFSET(a) == __CPROVER_POINTER_OFFSET(b) && __CPROVER_same_object((a), (b)))
+#define VP_PTRT_UGT(a,b) (VP_PK(a) != VP_PK(b) ? VP_PK(a) > VP_PK(b) : VP_PK(a) == 1 ? __CPROVER_POINTER_OFFSET(a) > __CPROVER_POINTER_OFFSET(b) : VP_PK(a) == 2 ? (u64)(a) > (u64)(b) : 0)
+#else
+#define VP_PTRT_EQ(a,b) ((u64)(a) == (u64)(b))
+#define VP_PTRT_UGT(a,b) ((u64)(a) > (u64)(b))
+#endif
 static inline u32 vp_bsr(u32 x){ return x ? 31u - (u32)__builtin_clz(x) : 0u; }
 static inline u64 vp_ctlz64(u64 x){ return x ? (u64)__builtin_clzll(x) : 64u; }
 static inline u32 vp_ctlz32(u32 x){ return x ? (u32)__builtin_clz(x) : 32u; }
@@ -1649,6 +1667,7 @@ LVALPATH = False   # --lvalpath: a load/store/cmpxchg/atomicrmw whose pointer op
                    # value cast for pointer<->i64 leaves) instead of `*ptr`: cbmc then sees a typed member/index expression even for a symbolic
                    # array index, where a pointer dereference degenerates into byte_update of the whole enclosing object at a symbolic offset
 PTRCMP = False     # --ptrcmp: `icmp u<pred> ptr, inttoptr(small const)` emitted through VP_PTR_<pred>_C (foldable by cbmc's symex), see inst()
+PTRTAG = False     # --ptrtag: run-time pointer tags ((T*)1 read from memory) compared with pointers, see VP_PTRT_* in PRELUDE
 PTRHOOKS = False   # --ptrhooks: inttoptr/ptrtoint instructions go through harness functions u8* vp_i2p(u64) / u64 vp_p2i(u8*)
 def main():
     """usage: ir2c.py in.ll outbase [--tso] [--thread fn[:sfx1,sfx2,...]]...
@@ -1663,6 +1682,8 @@ def main():
     PTRHOOKS = '--ptrhooks' in args
     global PTRCMP
     PTRCMP = '--ptrcmp' in args
+    global PTRTAG
+    PTRTAG = '--ptrtag' in args
     LVALPATH = '--lvalpath' in args
     PURE[:] = [args[i + 1] for i, a in enumerate(args) if a == '--pure']
     IMMUT[:] = [args[i + 1] for i, a in enumerate(args) if a == '--immutable']
